@@ -99,3 +99,11 @@ Theorem source_record_type :
   /\ Gen_attr.gen_other_types_debug = true
   /\ (forall k, Gen_attr.gen_pat_rule k = Some (pat_rule k)).
 Proof. repeat split; try reflexivity. intros k; destruct k; reflexivity. Qed.
+
+(** ** Whose name the span gets by default *)
+Theorem source_span_name :
+  (forall s, Gen_attr.gen_name_source s = Some NSAnnotated)
+  /\ (forall k, Gen_attr.gen_name_source (site_of_kind k) = Some (default_name_source k))
+  /\ Gen_attr.gen_helper_async_from_sig = true
+  /\ Gen_attr.gen_block_async_true = true.
+Proof. repeat split; try reflexivity; intros x; destruct x; reflexivity. Qed.
